@@ -1353,7 +1353,7 @@ def a_selfcheck(model):
 def run_a(ctx):
     model = AModel(ctx.tier)
     a_selfcheck(model)
-    depth = 4 if ctx.tier == "quick" else 6
+    depth = 5 if ctx.tier == "quick" else 7
     res = explore.explore(model, ctx, depth, max_states=None if ctx.tier == "quick" else 1_500_000)
     return res
 
